@@ -41,6 +41,10 @@ def find_invariant(ex, s):
 
 def eval_inv(ex, st, inv, extra):
     from . import callcontract
+    y = st.lookup("__yielded__") if ex.fr.finfo is not None and ex.fr.finfo.is_generator() else None
+    if y is not None:
+        extra = dict(extra)
+        extra["yielded"] = y       # generator under contract: the values yielded so far
     return callcontract.clause(ex, st, ex.fr.contract, inv, extra)
 
 
@@ -130,6 +134,7 @@ def havoc_for_loop(ex, st, body_stmts, extra_names=(), heap=True):
     names = assigned_names(body_stmts) | set(extra_names)
     if ex.fr.yield_handler is not None and any(isinstance(n, ast.Yield) for b in body_stmts for n in ast.walk(b)):
         names |= set(getattr(ex.fr, "consumer_assigned", ()))
+        names.add("__yielded__")
     for nm in names:
         for f in reversed(st.frames):
             if nm in f:
@@ -325,6 +330,8 @@ def for_core(ex, st, s, kind, payload):
     body_st.assume(z3.And(i.t >= 0, i.t < n))
     extra_i = {"_i": i, "_seq": seqv, "_n": V("int", n)}
     body_st.assume(eval_inv(ex, body_st, inv, extra_i))
+    for h in _hints(ex, "loop_hints", key):
+        body_st.assume(eval_inv(ex, body_st, h, extra_i))
     results = []
     el = element(ex, body_st, kind, payload, i.t)
     saved_i = ghost_frame(body_st).get("_i")
@@ -342,6 +349,8 @@ def for_core(ex, st, s, kind, payload):
                 eng.obligation(ex, st2, f"loop{key}.preserve", g, "loop-preserve", s)
             elif o[0] == BRK:
                 _restore_i(st2, saved_i)
+                for h in _hints(ex, "exit_hints", key):
+                    st2.assume(eval_inv(ex, st2, h, extra_i))
                 results.append((st2, (NEXT, None)))
             else:
                 _restore_i(st2, saved_i)
@@ -350,12 +359,23 @@ def for_core(ex, st, s, kind, payload):
     iN = S.fresh("_i", "int")
     exit_st.assume(iN.t == n)
     exit_st.assume(eval_inv(ex, exit_st, inv, {"_i": iN, "_seq": seqv, "_n": V("int", n)}))
+    for h in _hints(ex, "exit_hints", key):
+        exit_st.assume(eval_inv(ex, exit_st, h, {"_i": iN, "_seq": seqv, "_n": V("int", n)}))
     if ex.eng.quick_sat(exit_st.path):
         if s.orelse:
             results.extend(ex.block(exit_st, s.orelse))
         else:
             results.append((exit_st, (NEXT, None)))
     yield from results
+
+
+def _hints(ex, attr, key):
+    c = ex.fr.contract
+    d = getattr(c, attr, None) or {}
+    hs = d.get(key)
+    if hs is None and isinstance(key, str) and key.isdigit():
+        hs = d.get(int(key))
+    return hs or []
 
 
 def _restore_i(st, saved):
